@@ -72,6 +72,20 @@ def beh_to_steps(beh, nkeys, pad=10, observe=True):
     return steps
 
 
+def beh_to_sched(beh, pad=10):
+    """A behaviour of GenSimpleDBConc.tla (complete schedule of the concurrent model) as one case for the harness' schedule replay."""
+    u = Uniq()
+    thr, ms, ratio = parse_cfg(beh[0]["v"])
+    sched = []
+    for e in beh[1:]:
+        st = {"a": e["a"], "c": e["c"], "k": e["k"], "v": "", "r": e.get("r", ""), "pad": pad}
+        if e["a"] in ("put", "putrotate"):
+            st["v"] = u.next(e["v"])
+        sched.append(st)
+    return [open_step(thr, model_size_to_bytes(ms, pad), ratio, mem=1 << 30, bg=False), {"op": "sched", "sched": sched},
+            {"op": "barrier"}, {"op": "getall", "k": 2}, {"op": "close"}]
+
+
 def random_session_program(rng, nkeys=12, nsessions=3, ops_per_session=300, bg=None, flavor_mix=False, hot=None):
     """Long program: sessions with fresh random options; overwrite / delete / re-put chains; reads interleaved."""
     u = Uniq()
